@@ -1,38 +1,17 @@
 #!/usr/bin/env python3
-"""C06 detection demo keyed_list_and: tagfocus=key=rx1,rx2 demands that every expression matches (AND) instead of any (OR).
+"""C06 detection demo range_upto_lt: the open range :N of tagfocus/tagignore excludes its bound (<= became <).
 
 Exact-text substitution on the current /repo/internal/driver/driver_focus.go; nothing under /repo is
 touched. Prints the path of a `go build -overlay` json:
-    ov=$(python3 /verif/demos/C06_keyed_list_and.py)
+    ov=$(python3 /verif/demos/C06_range_upto_lt.py)
     cd /repo && go test -overlay $ov -vet=off -count=1 ./...     # existing suite
     cd /verif && ./pmc check C06 --solo --extra $ov              # must report a VIOLATION
 """
 import json, os
 SRC = '/repo/internal/driver/driver_focus.go'
-OUT = '/tmp/c06-demo/keyed_list_and'
+OUT = '/tmp/c06-demo/range_upto_lt'
 SUBS = [
-    ("""		if vals, ok := s.Label[wantKey]; ok {
-			for _, rx := range rfx {
-				for _, val := range vals {
-					if rx.MatchString(val) {
-						return true
-					}
-				}
-			}
-		}
-		return false""", """		if vals, ok := s.Label[wantKey]; ok {
-		nextrx:
-			for _, rx := range rfx {
-				for _, val := range vals {
-					if rx.MatchString(val) {
-						continue nextrx
-					}
-				}
-				return false
-			}
-			return true
-		}
-		return false"""),
+    ("return su == unit && sv <= scaledValue\n", "return su == unit && sv < scaledValue\n"),
 ]
 s = open(SRC).read()
 for old, new in SUBS:
